@@ -1260,6 +1260,14 @@ def oracle_C06(run, images=None):
                 if _expiry_pending(run, b, c["name"], c["key"]):
                     continue
                 leak = _readded_after_delete(run, sid, c["name"], c["key"])
+                if leak and c["op"] == "lock":
+                    # F-LEAK is a request that HOLDS its unit when the session ends and records it afterwards. A blocking Lock that
+                    # reaches the lock manager only after its session's context was cancelled (the session-end goroutine exists) is
+                    # refused by the unchanged code (semaphore.Acquire on a done context); a grant there is another defect
+                    k_end0 = run.first_seen(d)
+                    k_mgr = [k2 for (k2, t2, lab2) in steps if t2 == c["tid"] and lab2 == "VMgrLock"]
+                    if k_end0 is not None and k_mgr and min(k_mgr) > k_end0:
+                        leak = False
                 text = ("session %r has ended (DestroySession finished at item %d, every call of the session has returned) and its acknowledged hold (%r,%r) "
                         "still occupies the lock" % (sid, k_end, c["name"], c["key"]))
                 if leak:
